@@ -139,7 +139,8 @@ SafeToVote(s, p) ==
 ProcessBlock(s, p) ==
   LET b == p.blk  b1 == Par(b) IN
   IF b1 # Genesis /\ b1 \notin s.stored
-  THEN Emit([s EXCEPT !.parked = @ \cup {p}], [k |-> "park", blk |-> b])
+  THEN \* the synchronizer keeps one waiter per block digest: a second proposal of the same block (other TC) is not kept
+       Emit([s EXCEPT !.parked = IF \E q \in @ : q.blk = b THEN @ ELSE @ \cup {p}], [k |-> "park", blk |-> b])
   ELSE
     LET b0 == IF b1 = Genesis THEN Genesis ELSE Par(b1)
         s1 == Emit([s EXCEPT !.stored = @ \cup {b}], [k |-> "store", blk |-> b])
@@ -158,7 +159,8 @@ HandleProposal(s, p, avail) ==
   THEN Emit(s, [k |-> "err", e |-> "WrongLeader"])
   ELSE LET s1 == ProcessQC(s, Par(b))
            s2 == IF p.tc # NoTC THEN AdvanceRound(s1, p.tc.round) ELSE s1
-       IN IF ~avail THEN Emit([s2 EXCEPT !.pwait = @ \cup {p}], [k |-> "paywait", blk |-> b])
+       IN IF ~avail THEN \* the payload waiter keeps one entry per block digest (consensus/src/mempool.rs: pending.contains_key)
+                         Emit([s2 EXCEPT !.pwait = IF \E q \in @ : q.blk = b THEN @ ELSE @ \cup {p}], [k |-> "paywait", blk |-> b])
           ELSE ProcessBlock(s2, p)
 
 (* handle_timeout: core.rs:227.  t = [round, author, hq] *)
